@@ -82,6 +82,7 @@ type node struct {
 	hist     []string // ops since the last boot (for replay of a finding)
 	nBoot    int
 	inits    int
+	nExec    int
 	nRestart int
 }
 
@@ -241,6 +242,11 @@ func (n *node) mutate(ws []string) (string, bool) {
 		if err != nil {
 			return "", false
 		}
+		if gc.Count() >= 1<<32 {
+			// count has underflowed (only reachable from a crash-desynchronised store): the loop of
+			// removeFromCommonAncestor would run ~2^64 times. Not exercised (driver says the same).
+			return "unmodelled", true
+		}
 		core.VerifGroupChainRemoveFromCommonAncestor(&types.Group{GroupHeight: h, Header: &types.GroupHeader{}})
 		return "done", true
 	}
@@ -368,6 +374,18 @@ func lessHex(a, b string) bool {
 
 // exec answers one op line with the implementation.
 func (n *node) exec(line string) string {
+	n.nExec++
+	if n.nExec%256 == 0 {
+		if b, err := os.ReadFile("/proc/self/statm"); err == nil {
+			f := strings.Fields(string(b))
+			if len(f) > 1 {
+				if pages, _ := strconv.ParseUint(f[1], 10, 64); pages*4096 > 12<<30 {
+					fmt.Fprintln(os.Stderr, "c19 harness: resident set above 12 GiB (collector is off, see main) - giving up")
+					os.Exit(3)
+				}
+			}
+		}
+	}
 	ws := strings.Fields(line)
 	if len(ws) == 0 {
 		return "bad-op"
@@ -428,6 +446,9 @@ func (n *node) exec(line string) string {
 			return r
 		})
 		n.budget = -1
+		if res == "unmodelled" {
+			return res
+		}
 		if res == "ABORT" {
 			res = "crashed"
 		} else if !ok && !strings.HasPrefix(res, "PANIC") {
@@ -448,6 +469,9 @@ func (n *node) exec(line string) string {
 		}
 		if !ok {
 			return "bad-op"
+		}
+		if res == "unmodelled" {
+			return res
 		}
 		return res + " " + n.status()
 	}
